@@ -78,8 +78,9 @@ type c15Case struct {
 	Host    string      `json:"host"`
 	Headers [][2]string `json:"headers"` // as sent, in order (without Host and the body framing header)
 	Body    string      `json:"-"`
-	BodyRep string      `json:"body"` // the body itself, or "sha256:<hex>:<length>" for a large one
+	BodyRep string      `json:"body"`             // the body itself, or "sha256:<hex>:<length>" for a large one
 	BareQ   bool        `json:"bare_q,omitempty"` // the target ends in a '?' without a query
+	TLS     bool        `json:"tls,omitempty"`    // the client talks TLS to heimdall
 	Chunked bool        `json:"chunked"`
 	Setting string      `json:"setting"` // off | on | no_decode
 	Up      int         `json:"up"`      // 0 plain upstream, 1 TLS upstream
@@ -209,6 +210,7 @@ var c15TrustConfigs = [][]string{
 type c15Sys struct {
 	addr4   []string // per trust config: 127.0.0.1:port
 	addr6   []string // per trust config: [::1]:port ("" if IPv6 loopback is unavailable)
+	addrTLS []string // per trust config: 127.0.0.1:port of the TLS listener of the same service
 	upHosts [2]string
 	factory rule.Factory
 	close   []func()
@@ -385,6 +387,18 @@ func c15Start(t *testing.T) *c15Sys {
 
 		s.addr4 = append(s.addr4, ln4.Addr().String())
 
+		// the same service behind TLS (req.TLS != nil), HTTP/1.1 only
+		lnT, err := net.Listen("tcp4", "127.0.0.1:0")
+		if err != nil {
+			t.Fatal(err)
+		}
+
+		go srv.Serve(tls.NewListener(lnT, &tls.Config{ //nolint:errcheck
+			Certificates: []tls.Certificate{cert}, MinVersion: tls.VersionTLS12, NextProtos: []string{"http/1.1"},
+		}))
+
+		s.addrTLS = append(s.addrTLS, lnT.Addr().String())
+
 		if ln6, err := net.Listen("tcp6", "[::1]:0"); err == nil {
 			go srv.Serve(ln6) //nolint:errcheck
 
@@ -502,19 +516,33 @@ func (s *c15Sys) run(c *c15Case) c15Out {
 	c15.mu.Unlock()
 
 	addr := s.addr4[c.Srv]
-	if strings.Contains(c.Peer, ":") {
+
+	switch {
+	case c.TLS:
+		addr = s.addrTLS[c.Srv]
+	case strings.Contains(c.Peer, ":"):
 		addr = s.addr6[c.Srv]
 	}
 
 	d := net.Dialer{LocalAddr: &net.TCPAddr{IP: net.ParseIP(c.Peer)}, Timeout: 5 * time.Second}
 
-	conn, err := d.DialContext(context.Background(), "tcp", addr)
+	tcp, err := d.DialContext(context.Background(), "tcp", addr)
 	if err != nil {
 		return c15Out{Kind: "error", Err: "dial: " + err.Error()}
 	}
-	defer conn.Close()
+	defer tcp.Close()
 
-	conn.SetDeadline(time.Now().Add(20 * time.Second)) //nolint:errcheck
+	tcp.SetDeadline(time.Now().Add(30 * time.Second)) //nolint:errcheck
+
+	conn := tcp
+	if c.TLS {
+		tc := tls.Client(tcp, &tls.Config{InsecureSkipVerify: true, NextProtos: []string{"http/1.1"}}) //nolint:gosec
+		if err := tc.Handshake(); err != nil {
+			return c15Out{Kind: "error", Err: "tls: " + err.Error()}
+		}
+
+		conn = tc
+	}
 
 	var sb strings.Builder
 
@@ -548,12 +576,20 @@ func (s *c15Sys) run(c *c15Case) c15Out {
 		sb.WriteString("\r\n")
 	}
 
-	if _, err := io.WriteString(conn, sb.String()); err != nil {
-		return c15Out{Kind: "error", Err: "write: " + err.Error()}
-	}
+	// the server may answer (and hang up) before a large body is written completely
+	werr := make(chan error, 1)
+
+	go func() {
+		_, err := io.WriteString(conn, sb.String())
+		werr <- err
+	}()
 
 	resp, err := http.ReadResponse(bufio.NewReader(conn), &http.Request{Method: c.Method})
 	if err != nil {
+		if e := <-werr; e != nil {
+			return c15Out{Kind: "error", Err: "write: " + e.Error() + "; read: " + err.Error()}
+		}
+
 		return c15Out{Kind: "error", Err: "read: " + err.Error()}
 	}
 
@@ -986,8 +1022,15 @@ func (s *c15Sys) gen(r *vf.Rand) c15Case {
 
 	c.ReadBdy = r.Chance(30)
 
+	if r.Chance(15) && !strings.Contains(c.Peer, ":") {
+		c.TLS = true
+	}
+
 	// the upstream that speaks the protocol the request will most likely be forwarded with
 	scheme := "http"
+	if c.TLS {
+		scheme = "https"
+	}
 
 	if c15Trusted(c.Srv, c.Peer) {
 		for _, h := range c.Headers {
@@ -1011,7 +1054,7 @@ func (s *c15Sys) gen(r *vf.Rand) c15Case {
 		c.Up = r.Intn(2)
 	}
 
-	if s.localhostOK && r.Chance(12) {
+	if s.localhostOK && c.Up == 0 && r.Chance(12) {
 		// forward_to.host by name
 		_, port, _ := net.SplitHostPort(s.upHosts[c.Up])
 		c.UpHost = "localhost:" + port
@@ -1033,7 +1076,7 @@ func c15Coq(c *c15Case, o c15Out) string {
 	}
 
 	req := vf.CoqApp("rq", vf.CoqStr(c.Method), vf.CoqStr(c.Raw), vf.CoqStr(c.Query), vf.CoqStr(c.Host),
-		c15CoqPairs(c.Headers), vf.CoqStr(c.BodyRep), vf.CoqStr(c.Peer), vf.CoqBool(c.Trusted), xfu)
+		c15CoqPairs(c.Headers), vf.CoqStr(c.BodyRep), vf.CoqBool(c.TLS), vf.CoqStr(c.Peer), vf.CoqBool(c.Trusted), xfu)
 	pl := vf.CoqApp("pln", c15CoqPairs(c.PHdrs), c15CoqPairs(c.PCooks))
 
 	rw := "None"
@@ -1042,7 +1085,7 @@ func c15Coq(c *c15Case, o c15Out) string {
 	}
 
 	setting := map[string]string{"off": "Off", "on": "On", "no_decode": "NoDecode"}[c.Setting]
-	rul := vf.CoqApp("rul", setting, vf.CoqStr(c.UpHost), rw, vf.CoqBool(c.Up == 1))
+	rul := vf.CoqApp("rul", setting, vf.CoqStr(c.UpHost), rw, vf.CoqBool(c.Up == 1), "false")
 
 	var obs string
 
@@ -1236,6 +1279,52 @@ func c15Corpus() []c15Case {
 	// C15-F4: pipeline-produced forwarding header overwritten
 	c = base("GET", "/x", "")
 	c.PHdrs = [][2]string{{"Forwarded", "v1"}}
+	out = append(out, c)
+
+	// C15-F6: nothing named zz is in the query, yet it is re-ordered and re-encoded
+	c = base("GET", "/x", "b=1&a=%7E")
+	c.Rw = &c15Rw{StripQ: []string{"zz"}}
+	out = append(out, c)
+	c = base("GET", "/x", "a=1&&b&c=a%20b")
+	c.Rw = &c15Rw{StripQ: []string{"a"}}
+	out = append(out, c)
+
+	// C15-F7: the chain of a trusted peer in two field lines
+	c = base("GET", "/x", "")
+	c.Srv = 1
+	c.Headers = [][2]string{{"X-Forwarded-For", "10.0.0.1"}, {"X-Forwarded-For", "10.0.0.2"}}
+	out = append(out, c)
+	c = base("GET", "/x", "")
+	c.Srv = 1
+	c.Headers = [][2]string{{"Forwarded", "for=10.0.0.1"}, {"forwarded", "for=10.0.0.2;proto=https"}}
+	out = append(out, c)
+
+	// a pipeline header with the EMPTY value replaces the client's (audit 5.1), also under a name outside any pool
+	c = base("GET", "/x", "")
+	c.Headers = [][2]string{{"X-User", "admin"}, {"X-Tenant-Id", "root"}, {"Content-Type", "text/plain"}}
+	c.PHdrs = [][2]string{{"x-user", ""}, {"X-TENANT-ID", ""}, {"content-type", "application/json"}}
+	out = append(out, c)
+
+	// TLS towards heimdall: the connection's scheme is the original one
+	c = base("GET", "/tls", "")
+	c.TLS, c.Up = true, 1
+	out = append(out, c)
+	c = base("GET", "/tls", "")
+	c.TLS, c.Up, c.Srv = true, 1, 1
+	c.Headers = [][2]string{{"X-Forwarded-For", "10.0.0.1"}}
+	out = append(out, c)
+
+	// a CORS preflight request is forwarded like any other (no CORS configured); a bare '?'
+	c = base("OPTIONS", "/cors", "")
+	c.Headers = [][2]string{{"Origin", "https://app.example.com"}, {"Access-Control-Request-Method", "DELETE"}}
+	out = append(out, c)
+	c = base("GET", "/bare", "")
+	c.BareQ = true
+	out = append(out, c)
+
+	// a body of 2 MiB
+	c = base("POST", "/big", "")
+	c.Body = strings.Repeat("0123456789abcdef", 1<<17)
 	out = append(out, c)
 
 	// C15-F5: add_path_prefix that is not a valid encoded path
